@@ -43,6 +43,7 @@ func runMatrixC06(t *testing.T, protos []string) {
 				cells = append(cells, faultCase{Run: run, F: faultSpec{Deviator: dev, MsgType: pDS + "SignRound3Message", Field: fieldRef{"s", -1}, Kind: "sum-zero", Recip: -1}})
 			}
 		}
+		cells = append(cells, enumWholeMessageCells(run, salt)...)
 		cells = filterCells(cells)
 		total += len(cells)
 		cases = append(cases, sampleCells(cells, sample, shard, shards)...)
@@ -225,4 +226,51 @@ func TestC06SenderIndexSweep(t *testing.T) {
 		out.Sample = map[string]interface{}{"proto": c.Proto, "message_types": len(types), "calls": calls}
 		return out
 	})
+}
+
+// enumWholeMessageCells: whole-message garbage (every field random) from one deviator, and -- several faulty
+// peers at once -- whole-message garbage or another party's message from EVERY peer of one victim.
+func enumWholeMessageCells(run protoRun, salt int) []faultCase {
+	x := run.build()
+	x.net.Run(sim.FIFO{}, 200000)
+	var cells []faultCase
+	seenDev, seenAll := map[string]bool{}, map[string]bool{}
+	for _, e := range x.net.Emits {
+		recip := -1
+		if !e.Bcast {
+			recip = e.To[0]
+		}
+		if k := fmt.Sprintf("%d/%s", e.From, e.Type); !seenDev[k] {
+			seenDev[k] = true
+			cells = append(cells, faultCase{Run: run, F: faultSpec{Deviator: e.From, MsgType: e.Type, Field: fieldRef{"*", -1}, Kind: "rand-all-fields", Recip: recip, Salt: salt}})
+		}
+		// one victim per message type, chosen by the salt among the parties that receive this type
+		if seenAll[e.Type] {
+			continue
+		}
+		seenAll[e.Type] = true
+		var victims []int
+		for _, e2 := range x.net.Emits {
+			if e2.Type != e.Type {
+				continue
+			}
+			for _, to := range sim.ResolveDests(x.net, e2.From, e2.Msg) {
+				dup := false
+				for _, v := range victims {
+					dup = dup || v == to
+				}
+				if !dup {
+					victims = append(victims, to)
+				}
+			}
+		}
+		if len(victims) == 0 {
+			continue
+		}
+		v := victims[salt%len(victims)]
+		for _, k := range []string{"rand-all-fields", "mirror"} {
+			cells = append(cells, faultCase{Run: run, F: faultSpec{Deviator: e.From, MsgType: e.Type, Field: fieldRef{"*", -1}, Kind: k, Recip: v, Salt: salt, All: true}})
+		}
+	}
+	return cells
 }
